@@ -760,7 +760,7 @@ Section Files.
     - cbn. split; reflexivity.
     - cbn [map rm_items rm_loop]. unfold item_of at 1. cbn [fst].
       destruct (y <? sy) eqn:Ey; [apply IH|].
-      destruct (negb first && (yd =? 1) && negb (maxd_at st (Z.to_nat (yrz - 1)) =? ylen (y - 1))); [exact I|].
+      destruct (negb first && (yd =? 1) && negb (prev_year_ok st yrz y)); [exact I|].
       destruct first.
       + destruct (negb (yd =? yd)); [exact I|].
         destruct (1 >? Z.of_nat (List.length st)); [split; reflexivity | apply IH].
